@@ -300,7 +300,7 @@ class Source:
         If several scopes match, the first one that contains the remaining path wins."""
         def match(item, seg):
             kw, _, rest = seg.partition(' ')
-            if kw == 'impl':
+            if re.match(r'impl\b', seg):
                 if item.kind != 'impl':
                     return False
                 want = _norm(seg)
